@@ -697,6 +697,26 @@ OBS a.twice(1)
 g = a.f
 OBS g(5)
 """),
+    ("class-names-itself-in-method", "accept", """
+class K {
+	v: int
+	constructor(self, v: int) {
+		self.v = v
+	}
+	fn twin(self) -> Self {
+		return K(self.v + 1)
+	}
+	fn other(self) -> Self {
+		return Self(self.v + 2)
+	}
+}
+a = K(1)
+b = a.twin()
+OBS b
+OBS b.v
+c = a.other()
+OBS c.v
+"""),
     ("self-typed-parameter", "accept", """
 class D {
 	name: str
